@@ -186,11 +186,18 @@ def entry_or_insert(ctx, args, st):
     mv = st.deref(r)
     i = mv.index(k)
     if i is None:
-        op = ctx.callee.rsplit('::', 1)[-1]
-        if op.startswith('or_insert_with'):
-            raise Unsupported('Entry::or_insert_with')
-        if op.startswith('or_default'):
+        op = re.search(r'Entry::<.*>::(or_insert_with|or_insert|or_default)', ctx.callee).group(1)
+        if op == 'or_default':
             raise Unsupported('Entry::or_default')
+        if op == 'or_insert_with':
+            def g():
+                for s2, kind, val in ctx.ex.call_value(args[1], [], st, ctx.depth + 1):
+                    if kind != 'ret':
+                        yield s2, kind, val; continue
+                    mv2, _ = map_insert(s2.deref(r), k, val)
+                    s2.store(r, mv2)
+                    yield s2, 'ret', Ref(r.alloc, r.path + (mv2.index(k),), True)
+            return g()
         mv, _ = map_insert(mv, k, args[1])
         st.store(r, mv)
         i = mv.index(k)
